@@ -72,6 +72,20 @@ def pairwise(chk, suspects):
     for _ in range(n):
         s = rc.gen_sequence(chk.rng, {"entries": ["decorator"], "p_single": 1.0, "p_budget": 0.5, "mode": "call"})
         base.append(single_call_base(s, 0))
+    for i in range(10 if chk.tier == "quick" else 60):
+        # success after retried failures with a context-style (possibly stateful) strategy: the strategy is told about both
+        s = single_call_base(rc.gen_sequence(chk.rng, {"entries": ["decorator"], "p_single": 1.0, "p_budget": 0.0, "mode": "call",
+                                                       "p_abort": 0.0, "p_handler": 0.0, "p_hook_fault": 0.0}), 0)
+        p, c = s["policies"][0], s["calls"][0]
+        k = chk.rng.choice([1, 2, 3])
+        kl = chk.rng.choice(["TRANSIENT", "SERVER_ERROR", "RATE_LIMIT"])
+        for d in (p, c["cfg"]):
+            d.update(strat_default=False, strat_tab={} if i % 2 else {kl: False}, max_attempts=5, deadline=2**33, per_class={},
+                     max_unknown=None, handler_p=False)
+        ops = [["V" if (p["has_rc"] and chk.rng.random() < 0.4) else "R", 0, kl, None] for _ in range(k)] + [["V", 0, None, None]]
+        c["env"].update(ops=ops, strat=[0] * (k + 1), over=[0] * (k + 1), handler=[], abort=[], sleep_cancel=[], bs_cancel=[])
+        c["cfg"].update(has_abort=False, handler_c=False)
+        base.append(s)
     for s in base:
         for (e, m, a) in ALL20:
             t = copy.deepcopy(s)
@@ -80,6 +94,7 @@ def pairwise(chk, suspects):
             c["async"] = a
             c["variant"] = {"throw": True, "suspend_op": True, "suspend_bs": True, "suspend_sleep": True, "bare": 0} if a else {"bare": 0}
             c["cfg"]["capture_tl"] = False
+            t["spy_strategy"] = True      # strategy feedback (record_failure / record_success) is part of the compared trace
             variants.append(t)
     obs = rc.run_impl(variants, jobs=min(16, common.NPROC))
     diffs = 0
@@ -100,7 +115,7 @@ def pairwise(chk, suspects):
                                    "script": variants[i * 20], "other_script": variants[i * 20 + j],
                                    "observed": group[0], "observed_other": g, "driver": "runner_driver"})
                 break
-    chk.coverage["pairwise"] = {"base_scripts": len(base), "from_disagreeing_scripts": len(base) - n, "entry_points": 20,
+    chk.coverage["pairwise"] = {"base_scripts": len(base), "from_disagreeing_scripts": len(base) - n - (10 if chk.tier == "quick" else 60), "entry_points": 20,
                                 "runs": len(variants), "groups_with_a_difference": diffs}
     chk.coverage["evaluations"] = chk.coverage.get("evaluations", 0) + len(variants)
     return diffs
